@@ -109,6 +109,12 @@ def lookup(eng, d, k):
 
 
 @spec
+def maxabs(eng, d):
+    """largest coefficient magnitude of the dict / model (0 for an empty one)"""
+    return SV(FO.maxabs_of(eng, eng.store_of(d)), "real")
+
+
+@spec
 def has(eng, d, k):
     ver = eng.store_of(d)
     return SV(z3.Select(ver.dom, eng.as_dictkey(ver, k)), "bool")
